@@ -183,6 +183,24 @@ def gen_case(rng, cid, flavour, nterms=None, swaps=False, sites=None, scale_ok=T
     return case
 
 
+def gen_jw_case(rng, cid):
+    """spin chain with sigma_z / sigma_+- words (what table_row_swapped_jw accepts), integer factors, graph-built,
+    followed by exchanges with swap_jw=True (symbolic correspondence only)"""
+    n = rng.choice([3, 4, 5])
+    sites = [{"kind": "spin"} for _ in range(n)]
+    words = [["sigma_z"], ["sigma_+"], ["sigma_-"], ["sigma_z", "sigma_+"], ["sigma_z", "sigma_-"], ["sigma_+", "sigma_-"]]
+    terms = []
+    for _ in range(rng.choice([2, 3, 4, 6, 8, 12])):
+        sup = rng.sample(range(n), min(n, rng.choice([1, 2, 2, 3])))
+        ops = []
+        for i in sup:
+            ops += [["s%d" % i, x] for x in rng.choice(words)]
+        terms.append({"f": [float(rng.choice([-1, 1]) * rng.choice([1, 3, 5]) * 2 ** rng.randint(0, 8)), 0.0], "ops": ops})
+    return {"id": cid, "sites": sites, "terms": terms, "offset": 0.0, "flavour": "int", "complex": False,
+            "complex_matrix_real_factors": False, "algos": ["Hopcroft-Karp"],
+            "jw_swaps": [rng.randrange(n - 1) for _ in range(rng.randint(1, 3))]}
+
+
 def gen_history(rng, hid):
     """several constructions in ONE process: same DoF names and sizes, different SHO parameters (omega, x0),
     different construction algorithms, with / without the model.mpos cache; the first is re-checked at the end"""
@@ -497,13 +515,15 @@ def build_evals(case, view, r, stats):
             else:
                 enc = scaler(S1, allow_round=bool(case.get("offset_unit")))
                 ws = []
+                mts = []
                 for st in steps:
                     rsel, csel, ok = graph_witness(st)
                     if not ok:
                         stats["witness_order_inconsistent"] = stats.get("witness_order_inconsistent", 0) + 1
                     ws.append(wg_lit(rsel, csel))
-                expr = "tie_graph %s %s %s %s" % (case_prefix(case, view, S1), gi_lit((S1 ** (n - 1), 0)), lst(ws),
-                                                  bonds_lit(impl_bonds(rec), enc))
+                    mts.append(lst("(%s,%s)" % (key_lit(a), key_lit(b)) for a, b in step_matching_keys(st)))
+                expr = "tie_graph %s %s %s %s %s" % (case_prefix(case, view, S1), gi_lit((S1 ** (n - 1), 0)), lst(ws), lst(mts),
+                                                     bonds_lit(impl_bonds(rec), enc))
                 ev.append(((case["id"], "graph", algo), expr))
         except NotRepresentable as e:
             ev.append(((case["id"], "unrepresentable", algo), None))
@@ -511,6 +531,20 @@ def build_evals(case, view, r, stats):
             encq = scaler(1, allow_round=True)
             ev.append(((case["id"], "qn", algo), "tie_qn %s %s" % (lst(zlit(v[0]) for v in r["primary_qn"]),
                                                                    bonds_lit(impl_bonds(rec), encq))))
+        for k, sw in enumerate(rec.get("jw_swaps", [])):
+            for lg in sw.get("log", []):
+                if "nb2" not in lg:
+                    continue
+                try:
+                    enc1 = scaler(1)
+                    ws = [wg_lit(*graph_witness(st)[:2]) for st in lg["steps"]]
+                    b2 = [[(tuple(kk), f) for kk, f in oo] for oo in lg["b2"]]
+                    b3 = [[(tuple(kk), f) for kk, f in oo] for oo in lg["b3"]]
+                    tbl = lst("((%d,%d),(%d,%d,%s))" % (e[0], e[1], e[2], e[3], gi_lit(enc1(e[4]))) for e in lg["jw_map"])
+                    expr = "tie_swap_jw %d %d %s %s %s %s" % (lg["nprim"], lg["nprim2"], tbl, bond_lit(b2, enc1), bond_lit(b3, enc1), lst(ws))
+                    ev.append(((case["id"], "swapjw", (algo, k)), expr))
+                except NotRepresentable:
+                    stats["swap_skipped_nonint"] = stats.get("swap_skipped_nonint", 0) + 1
         # swaps (integer flavour only: S = 1)
         for k, sw in enumerate(rec.get("swaps", [])):
             for lg in sw.get("log", []):
@@ -605,7 +639,7 @@ def cmp_graph(case, view, r, rec, xs):
     enc = scaler(S1, allow_round=bool(tol))
     probs = []
     rd = Reader(xs)
-    fastp, okb, finalb, qnb = rd.get(), rd.get(), rd.get(), rd.get()
+    fastp, okb, finalb, qnb, certb = rd.get(), rd.get(), rd.get(), rd.get(), rd.get()
     mb = rd.bonds()
     mt = rd.tabs()
     diff = rd.tab()
@@ -622,6 +656,8 @@ def cmp_graph(case, view, r, rec, xs):
             probs.append("logged vertex cover / row order is not a valid witness (cover, NoDup, subset of rows/cols)")
         if not finalb:
             probs.append("model: final table is not [([0;0],1)]")
+        if not certb:
+            probs.append("hypothesis of C01_bond_le_left_parts fails: the logged cover has no Koenig certificate (a maximum matching of the same size)")
         if not qnb:
             probs.append("hypothesis of C01_mpo_qn_labels fails: a selected row is not a row of the table or a selected column has an empty complementary operator")
     model_b = [[sorted((k, dec(v)) for k, v in oo) for oo in b] for b in mb]
@@ -776,14 +812,25 @@ def max_matching(bigraph):
                 match_v[v] = u
                 return True
         return False
-    return sum(1 for u in range(len(bigraph)) if aug(u, set()))
+    n = sum(1 for u in range(len(bigraph)) if aug(u, set()))
+    return n, sorted((u, v) for v, u in match_v.items())
+
+
+def step_matching_keys(st):
+    """a maximum matching of the step's incidence graph (computed here, independently of the implementation) as
+    (row key, column key) pairs: the Koenig certificate handed to the Coq model"""
+    n, edges = max_matching(st["bigraph"])
+    tr, tc = st["term_row"], st["term_col"]
+    if st["u_is_rows"]:
+        return [(tuple(tr[u]), tuple(tc[v])) for u, v in edges]
+    return [(tuple(tr[v]), tuple(tc[u])) for u, v in edges]
 
 
 def bond_dim_checks(r, rec):
     """run-time side of the bond-dimension theorems (graph algorithms): the logged cover is a MINIMUM cover
     (Koenig: size = maximum matching, computed here independently), bond dimension = cover size, and at every cut
     the bond dimension is at most the number of distinct left parts and of distinct right parts of the ORIGINAL
-    table (the left-part clause is only `_partial` in Coq and is therefore tested here)"""
+    table (both clauses are Coq theorems (C01_bond_le_cols, C01_bond_le_left_parts); here they are re-checked on the implementation's output)"""
     probs = []
     for j, st in enumerate(rec["steps"]):
         if st["kind"] != "graph":
@@ -791,7 +838,7 @@ def bond_dim_checks(r, rec):
         size = sum(1 for b in st["rowbool"] if b) + sum(1 for b in st["colbool"] if b)
         if size != len(st["out_ops"]):
             probs.append("site %d: bond dimension %d != size of the vertex cover %d" % (j, len(st["out_ops"]), size))
-        mm = max_matching(st["bigraph"])
+        mm = max_matching(st["bigraph"])[0]
         if size != mm:
             probs.append("site %d: cover of size %d is not minimum (maximum matching %d)" % (j, size, mm))
     if "table" in r and rec["steps"]:
@@ -1141,6 +1188,14 @@ def run(ctx):
         if case.get("offset_unit"):
             dist["offset_units"][case["offset_unit"]] = dist["offset_units"].get(case["offset_unit"], 0) + 1
         dist["dup_or_cancel_terms"] += len(case["terms"]) + (1 if case["offset"] else 0) - len(mr)
+    njw = 30 if quick else 300
+    for k in range(njw):
+        c = gen_jw_case(rng, 500000 + k)
+        if not merged_rows(c, case_view(c)):
+            continue
+        c["_view"] = case_view(c)
+        cases.append(c)
+    dist["jw_swap_cases"] = njw
     malformed = []       # fully cancelling term lists (zero operator) are out of scope: neither generated nor reported
     strip = lambda c: {k: v for k, v in c.items() if not k.startswith("_")}
     # ---------------------------------------------------------------- 3. implementation runs (parallel)
@@ -1247,6 +1302,14 @@ def run(ctx):
                     elif what == "qr":
                         p = cmp_qr(case, view, r, r["algos"][algo], xs, stats)
                         key = "corr-construct-qr"
+                    elif what == "swapjw":
+                        a, kk = algo
+                        lg = [l_ for l_ in r["algos"][a]["jw_swaps"][kk]["log"] if "nb2" in l_][0]
+                        p = cmp_swap(lg, xs)
+                        key = "corr-swap-jw"
+                        stats["swap_jw_cmp"] = stats.get("swap_jw_cmp", 0) + 1
+                        stats["swap_jw_rule_nontrivial"] = stats.get("swap_jw_rule_nontrivial", 0) + (
+                            1 if any(e[0] != e[2] or e[1] != e[3] or e[4] != [1.0, 0.0] for e in lg["jw_map"]) else 0)
                     else:
                         a, kk = algo
                         lg = [l_ for l_ in r["algos"][a]["swaps"][kk]["log"] if "nb2" in l_][0]
